@@ -416,7 +416,10 @@ def mx_answer(rng):
     if r < 0.18:
         return '5/' + hexs(b'.'), []
     names = rng.sample([n for n in HOSTS], rng.choice([1, 1, 2, 3, 4]))
-    recs = ['%d/%s' % (rng.choice([5, 10, 10, 20]), hexs(n)) for n in names]
+    # preferences over the whole 16 bit range: both octets of the wire format matter (low octet >= 0x80, high octet
+    # set, 0 and 65535); seeded change c20-m7 decoded them through a signed char
+    prefs = [5, 10, 10, 20] if rng.random() < 0.5 else [0, 5, 10, 127, 128, 129, 200, 255, 256, 300, 384, 400, 32767, 32768, 33000, 65280, 65535]
+    recs = ['%d/%s' % (rng.choice(prefs), hexs(n)) for n in names]
     return ';'.join(recs), names
 
 
